@@ -42,7 +42,7 @@ SPEC = {
     "search": {"args": ["-n", "600"], "streams": 8},
     "nontrivial": nontrivial,
     "coverage_extra": coverage_extra,
-    "rule": "sequence = reset + one random cluster (max-replicas 1-5, 0-2 location labels, placement rules on/off, "
+    "rule": "(about 1 in 80 scatter ops is `scatteraged`: a store crosses the disconnect time between two looks of the long-lived scatterer at the same StoreInfo object, 0.45 s of real time) sequence = reset + one random cluster (max-replicas 1-5, 0-2 location labels, placement rules on/off, "
             "joint consensus on/off, reject-leader property with 0-3 entries – same key with different values and different keys, so that stores match only a later entry; max-replicas+1 .. 10 stores, a third of them offline / "
             "down / disconnected / busy / with snapshots in flight or pending peers in two thirds of the clusters, optional TiFlash stores with a learner rule, "
             "zone/host labels, region counts and sizes; with placement rules either a TiFlash learner rule or an "
